@@ -724,6 +724,12 @@ impl ProtocolState {
 
     fn apply_disconnect_completion(&mut self, operation: &ClientOperation) -> GneissResult<()> {
         if let MqttPacket::Disconnect(_) = &*operation.packet {
+            if self.state == ProtocolStateType::Disconnected {
+                // failed because there is no connection (any more): there is nothing left to shut down,
+                // and in particular connection-closed handling must run to completion
+                return Ok(());
+            }
+
             if self.state == ProtocolStateType::PendingDisconnect {
                 self.state = ProtocolStateType::Halted;
             }
